@@ -65,7 +65,7 @@ def raw_groups(tier, salt):
 
 def fault_groups(tier, salt, n_mut_quick=6, n_mut_thorough=12):
     """-> (groups with arbitrary inputs as fault vectors, stats)"""
-    rnd, groups, stats = canonical_groups(tier, salt, n_quick=48)
+    rnd, groups, stats = canonical_groups(tier, salt, n_quick=32)
     n_mut = n_mut_quick if tier == "quick" else n_mut_thorough
     items = []
     for g in groups:
